@@ -114,6 +114,18 @@ Proof.
     eapply walk_prev; eauto.
 Qed.
 
+Lemma dep_targets_complete_old : forall v c h dp since ids sk x m,
+  f_prev v = PrevFeed -> f_skip v = SkipPrev -> In x sk ->
+  connected_prev h dp since x m -> main_live h (c_main c) m = true ->
+  In m (dep_targets v c h dp since ids sk).
+Proof.
+  intros v c h dp since ids sk x m Hv Hk Hx Hc Hl. unfold dep_targets. rewrite Hk.
+  unfold connected_prev in Hc. destruct (d_joins dp) as [|j js] eqn:E; [destruct Hc|].
+  destruct Hc as (Hinv & Hs & y & Hh & Hp). apply filter_In. split; auto.
+  unfold prev_view. rewrite Hv. destruct (Z.leb since 0) eqn:Es; [apply Z.leb_le in Es; lia|].
+  eapply walk_prev; eauto.
+Qed.
+
 Lemma dep_targets_main : forall v c h dp since ids sk m,
   In m (dep_targets v c h dp since ids sk) -> main_live h (c_main c) m = true.
 Proof.
@@ -238,6 +250,62 @@ Proof.
     + intros _. apply Hlt. rewrite E. discriminate.
 Qed.
 
+(** * ProcessChanges with any LatestOnly flag *)
+Lemma dropz_dropz : forall l a b, 0 <= a -> 0 <= b -> dropz a (dropz b l) = dropz (a + b) l.
+Proof.
+  induction l as [|y l IH]; intros a b Ha Hb; [destruct (a <=? 0); reflexivity|].
+  destruct (Z.eq_dec b 0) as [->|Hb0]; [rewrite (dropz_le0 0) by lia; f_equal; lia|].
+  rewrite (dropz_cons b) by lia. rewrite (dropz_cons (a + b)) by lia. rewrite IH by lia. f_equal. lia.
+Qed.
+
+Lemma scan_gen : forall l pos limit n latest vs sk c,
+  (n < limit)%nat -> scan l pos limit n latest = (vs, sk, c) ->
+  pos <= c <= pos + lenz l /\ (l <> [] -> pos < c) /\
+  (forall i x, 0 <= i < c - pos -> nthz l i = Some x ->
+               if latest && superseded x (dropz (i + 1) l) then In x sk else In x vs).
+Proof.
+  unfold lenz. induction l as [|y l IH]; intros pos limit n latest vs sk c Hn H; cbn [scan] in H.
+  - injection H as <- <- <-. cbn. split; [lia|]. split; [congruence|intros; lia].
+  - assert (Hd : forall i, 0 < i -> dropz (i + 1) (y :: l) = dropz (i - 1 + 1) l).
+    { intros i Hi. rewrite dropz_cons by lia. f_equal. lia. }
+    assert (Hd0 : dropz (0 + 1) (y :: l) = l) by (cbn; now rewrite dropz_le0 by lia).
+    destruct (latest && superseded y l) eqn:Esk.
+    + destruct (scan l (pos + 1) limit n latest) as [[r s] c'] eqn:Es. injection H as <- <- <-.
+      apply IH in Es; auto. destruct Es as (Hc & _ & Hcov). cbn [length]. split; [lia|]. split; [intros; lia|].
+      intros i x Hi Hx. destruct (Z.eq_dec i 0) as [->|Hi0].
+      * cbn in Hx. injection Hx as <-. rewrite Hd0, Esk. now left.
+      * rewrite nthz_cons in Hx by lia. rewrite Hd by lia. specialize (Hcov (i - 1) x ltac:(lia) Hx).
+        destruct (latest && superseded x (dropz (i - 1 + 1) l)); [now right|auto].
+    + destruct (Nat.eqb (S n) limit) eqn:E.
+      * injection H as <- <- <-. cbn [length]. split; [lia|]. split; [intros; lia|].
+        intros i x Hi Hx. assert (i = 0) as -> by lia. cbn in Hx. injection Hx as <-. rewrite Hd0, Esk. now left.
+      * apply Nat.eqb_neq in E. destruct (scan l (pos + 1) limit (S n) latest) as [[r s] c'] eqn:Es.
+        injection H as <- <- <-. apply IH in Es; [|lia]. destruct Es as (Hc & _ & Hcov).
+        cbn [length]. split; [lia|]. split; [intros; lia|].
+        intros i x Hi Hx. destruct (Z.eq_dec i 0) as [->|Hi0].
+        -- cbn in Hx. injection Hx as <-. rewrite Hd0, Esk. now left.
+        -- rewrite nthz_cons in Hx by lia. rewrite Hd by lia. specialize (Hcov (i - 1) x ltac:(lia) Hx).
+           destruct (latest && superseded x (dropz (i - 1 + 1) l)); [auto|now right].
+Qed.
+
+Lemma changes_gen : forall f since b latest vs sk c,
+  (1 <= b)%nat -> 0 <= since -> changes f since b latest = (vs, sk, c) ->
+  since <= c /\ c <= Z.max since (lenz f) /\ (since < lenz f -> since < c) /\
+  (forall k x, since <= k < c -> nthz f k = Some x ->
+               if latest && superseded x (dropz (k + 1) f) then In x sk else In x vs).
+Proof.
+  intros f since b latest vs sk c Hb Hs H. unfold changes in H.
+  destruct (dropz since f) as [|y l] eqn:E.
+  - injection H as <- <- <-. apply dropz_nil_len in E; auto. split; [lia|]. split; [lia|]. split; [lia|intros; lia].
+  - rewrite <- E in H. apply scan_gen in H; [|lia]. destruct H as (Hc & Hlt & Hcov).
+    rewrite dropz_len in Hc by lia. split; [lia|]. split; [lia|]. split.
+    + intros _. apply Hlt. rewrite E. discriminate.
+    + intros k x Hk Hx. specialize (Hcov (k - since) x ltac:(lia)).
+      rewrite nthz_dropz in Hcov by lia. replace (since + (k - since)) with k in Hcov by lia.
+      specialize (Hcov Hx). rewrite dropz_dropz in Hcov by lia. replace (k - since + 1 + since) with (k + 1) in Hcov by lia.
+      exact Hcov.
+Qed.
+
 (** sources of every emitted id, any LatestOnly flag *)
 Lemma scan_sub : forall l pos limit n latest vs sk c,
   scan l pos limit n latest = (vs, sk, c) -> forall x, In x vs -> In x l.
@@ -264,6 +332,54 @@ Proof.
   intros f since b latest vs sk c H x Hx. unfold changes in H. destruct (dropz since f) as [|y l] eqn:E.
   - injection H as <- <- <-. destruct Hx.
   - rewrite <- E in H. eapply dropz_sub. eapply scan_sub; eauto.
+Qed.
+
+Lemma changes_nonempty : forall f since b latest vs sk c,
+  0 <= since -> changes f since b latest = (vs, sk, c) -> vs <> [] -> since < lenz f.
+Proof.
+  intros f since b latest vs sk c Hs H Hne. unfold changes in H. destruct (dropz since f) as [|y l] eqn:E.
+  - injection H as <- _ _. congruence.
+  - pose proof (dropz_len f since Hs) as Hlen. rewrite E in Hlen. unfold lenz in *. cbn [length] in Hlen. lia.
+Qed.
+
+Lemma scan_nonempty : forall l pos limit n latest vs sk c,
+  (n < limit)%nat -> l <> [] -> scan l pos limit n latest = (vs, sk, c) -> vs <> [].
+Proof.
+  induction l as [|y l IH]; intros pos limit n latest vs sk c Hn Hne H; [congruence|]. cbn [scan] in H.
+  destruct (latest && superseded y l) eqn:Esk.
+  - destruct (scan l (pos + 1) limit n latest) as [[r s] c'] eqn:Es. injection H as <- _ _.
+    eapply IH; eauto. apply andb_true_iff in Esk. destruct Esk as [_ Esk]. unfold superseded in Esk.
+    destruct l; [discriminate|congruence].
+  - destruct (Nat.eqb (S n) limit); [injection H as <- _ _; discriminate|].
+    destruct (scan l (pos + 1) limit (S n) latest) as [[r s] c']. injection H as <- _ _. discriminate.
+Qed.
+
+Lemma changes_nonempty_conv : forall f since b latest vs sk c,
+  (1 <= b)%nat -> 0 <= since -> changes f since b latest = (vs, sk, c) -> since < lenz f -> vs <> [].
+Proof.
+  intros f since b latest vs sk c Hb Hs H Hlt. unfold changes in H. destruct (dropz since f) as [|y l] eqn:E.
+  - apply dropz_nil_len in E; auto. lia.
+  - rewrite <- E in H. assert (Hn : (0 < b)%nat) by lia.
+    assert (Hd : dropz since f <> []) by (rewrite E; discriminate).
+    exact (scan_nonempty _ _ _ _ _ _ _ _ Hn Hd H).
+Qed.
+
+Lemma last_occurrence : forall f m, In m (map v_id f) ->
+  exists p x, nthz f p = Some x /\ v_id x = m /\ superseded x (dropz (p + 1) f) = false.
+Proof.
+  induction f as [|y f IH]; intros m Hm; [destruct Hm|].
+  destruct (existsb (fun w => N.eqb (v_id w) m) f) eqn:Ex.
+  - apply existsb_exists in Ex. destruct Ex as (w & Hw & E). apply N.eqb_eq in E.
+    destruct (IH m) as (p & x & Hx & Hid & Hs); [apply in_map_iff; eauto|].
+    pose proof (nthz_range _ _ _ Hx) as Hr. exists (p + 1), x. split; [|split; auto].
+    + rewrite nthz_cons by lia. rewrite <- Hx. f_equal. lia.
+    + rewrite dropz_cons by lia. rewrite <- Hs. f_equal. f_equal. lia.
+  - destruct Hm as [Hm|Hm].
+    + exists 0, y. split; [reflexivity|]. split; auto. cbn [Z.add]. change (0 + 1) with 1.
+      rewrite dropz_cons by lia. rewrite dropz_le0 by lia. unfold superseded. rewrite Hm. exact Ex.
+    + exfalso. apply in_map_iff in Hm. destruct Hm as (w & Hid & Hw).
+      assert (existsb (fun w => N.eqb (v_id w) m) f = true); [|congruence].
+      apply existsb_exists. exists w. split; auto. now apply N.eqb_eq.
 Qed.
 
 (** * chunks *)
@@ -318,22 +434,22 @@ Section Page.
   Variables (v : variant) (c : cfg) (h : hub) (tk0 : tokens) (b : nat).
   Hypothesis Hs : f_shared v = SharedSnapshot.
   Hypothesis Hp : f_prev v = PrevFeed.
-  Hypothesis Hl : c_latest c = false.
+  Hypothesis Hsk : c_latest c = true -> f_skip v = SkipPrev.
   Hypothesis Hb : (1 <= b)%nat.
   Hypothesis Htk : forall k, 0 <= dtok tk0 k.
   Hypothesis Hm0 : 0 <= t_main tk0.
 
   Definition cont_of (ds : nat) : Z := snd (changes (feed_of h ds) (dtok tk0 ds) b (c_latest c)).
   Definition req (dp : dep) (p : Z) (m : N) : Prop :=
-    exists x, nthz (feed_of h (d_ds dp)) p = Some x /\ required c h dp (dtok tk0 (d_ds dp)) (v_id x) m.
+    exists x, nthz (feed_of h (d_ds dp)) p = Some x /\ required_l c h dp (dtok tk0 (d_ds dp)) p x m.
 
   Lemma cont_of_bounds : forall ds,
     dtok tk0 ds <= cont_of ds /\ cont_of ds <= Z.max (dtok tk0 ds) (lenz (feed_of h ds)) /\
     (dtok tk0 ds < lenz (feed_of h ds) -> dtok tk0 ds < cont_of ds).
   Proof.
-    intros ds. unfold cont_of. rewrite Hl.
-    destruct (changes (feed_of h ds) (dtok tk0 ds) b false) as [[vs sk] cont] eqn:E.
-    apply changes_plain in E; auto. cbn. tauto.
+    intros ds. unfold cont_of.
+    destruct (changes (feed_of h ds) (dtok tk0 ds) b (c_latest c)) as [[vs sk] cont] eqn:E.
+    apply changes_gen in E; auto. cbn. tauto.
   Qed.
 
   Definition step_tok (d : tokens) (dp : dep) (later : list dep) : tokens :=
@@ -364,8 +480,14 @@ Section Page.
     split; [reflexivity|]. split; [|split].
     - intros p m Hr (x & Hx & Hreq). apply Hents.
       apply (split_chunks_In _ _ _ _ _ _ Esp m). left.
-      rewrite Hl in Ech. apply changes_plain in Ech; auto. destruct Ech as (_ & _ & _ & _ & Hcov & _).
-      eapply dep_targets_complete; eauto. apply in_map. eapply Hcov; eauto.
+      apply changes_gen in Ech; auto. destruct Ech as (_ & _ & _ & Hcov).
+      specialize (Hcov p x Hr Hx). destruct Hreq as [Hreq Hlive]. unfold skipped in Hreq.
+      destruct (c_latest c && superseded x (dropz (p + 1) (feed_of h (d_ds dp)))) eqn:Esk.
+      + destruct Hreq as [[Hf _]|Hprev]; [discriminate|].
+        apply andb_true_iff in Esk. destruct Esk as [Elat _].
+        eapply (dep_targets_complete_old v c h dp _ _ _ (v_id x)); eauto. now apply in_map.
+      + eapply (dep_targets_complete v c h dp _ _ _ (v_id x)); eauto; [now apply in_map|].
+        split; auto. destruct Hreq as [[_ Hn]|Hprev]; auto.
     - intros cs1 k cs2 Hsplit. apply app_split in Hsplit.
       destruct Hsplit as [(b' & Hm & _)|(a' & _ & Hr)].
       + left. assert (Hin : In k (map (fun es => mkCall es d) full)) by (rewrite Hm; apply in_or_app; right; now left).
@@ -519,7 +641,7 @@ Section Page.
                     t_main tk0 <= t_main tk1 /\ t_main tk1 <= Z.max (t_main tk0) (lenz (feed_of h (c_main c))) /\
                     (more = true -> t_main tk0 < t_main tk1) /\
                     (forall p x, t_main tk0 <= p < t_main tk1 -> nthz (feed_of h (c_main c)) p = Some x ->
-                                 In (v_id x) (k_ents kl))).
+                                 skipped c (feed_of h (c_main c)) p x = false -> In (v_id x) (k_ents kl))).
   Proof.
     intros cs tk1 more H. unfold read_page in H.
     destruct (deps_steps v c h tk0 b tk0 (c_deps c)) as [csd d] eqn:Ed.
@@ -544,7 +666,6 @@ Section Page.
     - intros k Hk ds. apply in_app_or in Hk. destruct Hk as [Hk|[<-|[]]]; [auto|].
       cbn [k_tok]. rewrite Hd. destruct (Hi ds) as [E|[E _]]; auto.
     - exists csd, (mkCall (map v_id vs) tk1). split; [reflexivity|]. split; [reflexivity|].
-      rewrite Hl in Ech.
       split; [|split; [|split; [|split]]].
       + cbn [k_ents]. destruct vs; cbn; split; congruence.
       + intros k Hk. eapply deps_steps_main_tok; eauto.
@@ -552,10 +673,12 @@ Section Page.
       + cbn [k_ents]. intros m Hm. apply in_map_iff in Hm. destruct Hm as (x & <- & Hx). apply in_map.
         eapply changes_sub; eauto.
       + cbn [k_tok t_main]. unfold tk1. cbn [t_main].
-        apply changes_plain in Ech; auto. destruct Ech as (_ & H1 & H2 & H3 & Hcov & _ & Hne).
+        pose proof (changes_nonempty _ _ _ _ _ _ _ Hm0 Ech) as Hne.
+        apply changes_gen in Ech; auto. destruct Ech as (H1 & H2 & H3 & Hcov).
         split; [lia|]. split; [lia|]. split.
-        * intros Hmore. apply Hne. destruct vs; [discriminate|congruence].
-        * intros p x Hr Hx. cbn [k_ents]. apply in_map. eapply Hcov; eauto.
+        * intros Hmore. apply H3, Hne. destruct vs; [discriminate|congruence].
+        * intros p x Hr Hx Hskip. cbn [k_ents]. apply in_map. specialize (Hcov p x Hr Hx).
+          unfold skipped in Hskip. now rewrite Hskip in Hcov.
   Qed.
 
 
@@ -574,7 +697,7 @@ Section Run.
   Variables (v : variant) (c : cfg) (h : hub) (b : nat).
   Hypothesis Hs : f_shared v = SharedSnapshot.
   Hypothesis Hp : f_prev v = PrevFeed.
-  Hypothesis Hl : c_latest c = false.
+  Hypothesis Hsk : c_latest c = true -> f_skip v = SkipPrev.
   Hypothesis Hb : (1 <= b)%nat.
 
   Definition tok_in (tk : tokens) : Prop :=
@@ -584,9 +707,9 @@ Section Run.
     tok_ok tk -> read_page v c h tk b = (cs, tk1, more) -> tok_ok tk1.
   Proof.
     intros tk cs tk1 more [H1 H2] H.
-    destruct (page_safe v c h tk b Hs Hp Hl Hb H1 H2 _ _ _ H) as (_ & Hd & _ & _ & (cs0 & kl & _ & _ & _ & _ & _ & _ & Hm & _)).
+    destruct (page_safe v c h tk b Hs Hp Hsk Hb H1 H2 _ _ _ H) as (_ & Hd & _ & _ & (cs0 & kl & _ & _ & _ & _ & _ & _ & Hm & _)).
     split; [|lia]. intros k. destruct (Hd k) as [->| ->]; auto.
-    pose proof (cont_of_bounds c h tk b Hl Hb H1 k). specialize (H1 k). lia.
+    pose proof (cont_of_bounds c h tk b Hb H1 k). specialize (H1 k). lia.
   Qed.
 
   Lemma page_tok_in : forall tk cs tk1 more,
@@ -594,15 +717,15 @@ Section Run.
     tok_in tk1 /\ forall k, In k cs -> tok_in (k_tok k).
   Proof.
     intros tk cs tk1 more [H1 H2] Hin H.
-    destruct (page_safe v c h tk b Hs Hp Hl Hb H1 H2 _ _ _ H) as (_ & Hd & _ & Hk & _).
+    destruct (page_safe v c h tk b Hs Hp Hsk Hb H1 H2 _ _ _ H) as (_ & Hd & _ & Hk & _).
     assert (Haux : forall t, (forall ds, dtok t ds = dtok tk ds \/ dtok t ds = cont_of c h tk b ds) -> tok_in t).
     { intros t Ht dp Hdp. destruct (Ht (d_ds dp)) as [->| ->]; auto.
-      pose proof (cont_of_bounds c h tk b Hl Hb H1 (d_ds dp)). specialize (Hin dp Hdp). lia. }
+      pose proof (cont_of_bounds c h tk b Hb H1 (d_ds dp)). specialize (Hin dp Hdp). lia. }
     split; auto.
   Qed.
 
   Definition req_at (tkp : tokens) (dp : dep) (p : Z) (m : N) : Prop :=
-    exists x, nthz (feed_of h (d_ds dp)) p = Some x /\ required c h dp (dtok tkp (d_ds dp)) (v_id x) m.
+    exists x, nthz (feed_of h (d_ds dp)) p = Some x /\ required_l c h dp (dtok tkp (d_ds dp)) p x m.
 
   Lemma inc_pages_safe : forall fuel tk, tok_ok tk ->
     forall cs1 k cs2, inc_pages v c h b fuel tk = cs1 ++ k :: cs2 ->
@@ -614,7 +737,7 @@ Section Run.
     - destruct cs1; discriminate.
     - destruct (read_page v c h tk b) as [[cs tk'] more] eqn:Ep.
       destruct Hok as [H1 H2].
-      destruct (page_safe v c h tk b Hs Hp Hl Hb H1 H2 _ _ _ Ep) as (Hsafe & Hd & _ & _ & (cs0 & kl & Hcs & Hkl & _)).
+      destruct (page_safe v c h tk b Hs Hp Hsk Hb H1 H2 _ _ _ Ep) as (Hsafe & Hd & _ & _ & (cs0 & kl & Hcs & Hkl & _)).
       assert (Hin_page : forall a k' a2, cs = a ++ k' :: a2 -> dtok tk (d_ds dp) <= p < dtok (k_tok k') (d_ds dp) ->
                  forall m, req_at tk dp p m -> In m (ents (a ++ [k']))).
       { intros a k' a2 Hsp Hr' m Hq. exact (Hsafe _ _ _ Hsp dp Hdp p m Hr' Hq). }
@@ -653,17 +776,17 @@ Section Run2.
   Variables (v : variant) (c : cfg) (h : hub) (b : nat).
   Hypothesis Hs : f_shared v = SharedSnapshot.
   Hypothesis Hp : f_prev v = PrevFeed.
-  Hypothesis Hl : c_latest c = false.
+  Hypothesis Hsk : c_latest c = true -> f_skip v = SkipPrev.
   Hypothesis Hb : (1 <= b)%nat.
 
   Lemma page_calls_tok_ok : forall tk cs tk1 more,
     tok_ok tk -> read_page v c h tk b = (cs, tk1, more) -> forall k, In k cs -> tok_ok (k_tok k).
   Proof.
     intros tk cs tk1 more [H1 H2] H k Hk.
-    destruct (page_safe v c h tk b Hs Hp Hl Hb H1 H2 _ _ _ H) as (_ & _ & _ & Hks & (cs0 & kl & -> & Hkl & _ & Hm0 & _ & _ & Hm & _)).
+    destruct (page_safe v c h tk b Hs Hp Hsk Hb H1 H2 _ _ _ H) as (_ & _ & _ & Hks & (cs0 & kl & -> & Hkl & _ & Hm0 & _ & _ & Hm & _)).
     split.
     - intros ds. destruct (Hks k Hk ds) as [->| ->]; auto.
-      pose proof (cont_of_bounds c h tk b Hl Hb H1 ds). specialize (H1 ds). lia.
+      pose proof (cont_of_bounds c h tk b Hb H1 ds). specialize (H1 ds). lia.
     - apply in_app_or in Hk. destruct Hk as [Hk|[<-|[]]].
       + rewrite (Hm0 _ Hk). auto.
       + rewrite Hkl. lia.
@@ -736,7 +859,7 @@ Proof. induction cs; cbn; auto. Qed.
 Lemma no_append_pairs : forall l, no_append (map ev_of_pair l).
 Proof. induction l; cbn; auto. Qed.
 
-Lemma covered_mono : forall c n tr e dp p, covered c n tr dp p -> covered c n (tr ++ e) dp p.
+Lemma covered_mono : forall c n tr e dp p, covered_l c n tr dp p -> covered_l c n (tr ++ e) dp p.
 Proof.
   intros c n tr e dp p (tr1 & tr2 & tr3 & h1 & j1 & x & -> & H). exists tr1, tr2, (tr3 ++ e), h1, j1, x.
   split; [now rewrite <- !app_assoc|exact H].
@@ -769,26 +892,29 @@ Proof.
 Qed.
 
 (** * full sync *)
-Lemma full_pages_complete : forall c h b, c_latest c = false -> (1 <= b)%nat ->
+Lemma full_pages_complete : forall c h b, (1 <= b)%nat ->
   forall fuel pos ps fin, 0 <= pos -> lenz (feed_of h (c_main c)) - pos < Z.of_nat fuel ->
   full_pages c h b fuel pos = (ps, fin) ->
-  pos <= fin /\ forall k x, pos <= k -> nthz (feed_of h (c_main c)) k = Some x -> In (v_id x) (concat ps).
+  pos <= fin /\ forall k x, pos <= k -> nthz (feed_of h (c_main c)) k = Some x ->
+                           skipped c (feed_of h (c_main c)) k x = false -> In (v_id x) (concat ps).
 Proof.
-  intros c h b Hl Hb. induction fuel as [|fuel IH]; intros pos ps fin Hpos Hf H; cbn [full_pages] in H.
+  intros c h b Hb. induction fuel as [|fuel IH]; intros pos ps fin Hpos Hf H; cbn [full_pages] in H.
   - injection H as <- <-. split; [lia|]. intros k x Hk Hx. apply nthz_range in Hx. lia.
-  - rewrite Hl in H. destruct (changes (feed_of h (c_main c)) pos b false) as [[vs sk] cont] eqn:E.
-    pose proof (changes_plain _ _ _ _ _ _ Hb Hpos E) as (_ & H1 & H2 & H3 & Hcov & _ & Hne).
+  - destruct (changes (feed_of h (c_main c)) pos b (c_latest c)) as [[vs sk] cont] eqn:E.
+    pose proof (changes_nonempty_conv _ _ _ _ _ _ _ Hb Hpos E) as Hconv.
+    pose proof (changes_nonempty _ _ _ _ _ _ _ Hpos E) as Hne.
+    pose proof (changes_gen _ _ _ _ _ _ _ Hb Hpos E) as (H1 & H2 & H3 & Hcov).
     destruct vs as [|v0 vs].
     + injection H as <- <-. split; [lia|]. intros k x Hk Hx. pose proof (nthz_range _ _ _ Hx) as Hr.
       destruct (Z.lt_ge_cases pos (lenz (feed_of h (c_main c)))) as [Hlt|Hge]; [|lia].
-      destruct (nthz_some (feed_of h (c_main c)) pos ltac:(lia)) as [y Hy].
-      exfalso. apply (Hcov pos y); auto. specialize (H3 Hlt). lia.
+      exfalso. now apply Hconv.
     + destruct (full_pages c h b fuel cont) as [ps' fin'] eqn:Er. injection H as <- <-.
-      assert (Hc : pos < cont) by (apply Hne; discriminate).
+      assert (Hc : pos < cont) by (apply H3, Hne; discriminate).
       destruct (IH cont ps' fin' ltac:(lia) ltac:(lia) Er) as [Hfin Hrest].
-      split; [lia|]. intros k x Hk Hx. cbn [concat]. apply in_or_app.
+      split; [lia|]. intros k x Hk Hx Hskip. cbn [concat]. apply in_or_app.
       destruct (Z.lt_ge_cases k cont) as [Hlt|Hge].
-      * left. apply (in_map v_id (v0 :: vs) x). eapply Hcov; eauto.
+      * left. apply (in_map v_id (v0 :: vs) x). specialize (Hcov k x ltac:(lia) Hx).
+        unfold skipped in Hskip. now rewrite Hskip in Hcov.
       * right. eapply Hrest; eauto.
 Qed.
 
@@ -822,7 +948,7 @@ Definition hinv (c : cfg) (n : nat) (s : state) (tr : list ev) : Prop :=
   replay tr (s_hub (init_state n)) None = (s_hub s, s_job s) /\
   forall tk, s_job s = Some tk ->
     tok_ok tk /\ tok_in c (s_hub s) tk /\
-    forall dp, In dp (c_deps c) -> forall p, 0 <= p < dtok tk (d_ds dp) -> covered c n tr dp p.
+    forall dp, In dp (c_deps c) -> forall p, 0 <= p < dtok tk (d_ds dp) -> covered_l c n tr dp p.
 
 Lemma app_last_split {A} : forall (a : list A) x l1 l2, a ++ [x] = l1 ++ l2 -> l2 <> [] ->
   exists l2', l2 = l2' ++ [x] /\ a = l1 ++ l2'.
@@ -877,7 +1003,7 @@ Qed.
 
 (** what a full-sync run does, whatever the sink failure *)
 Lemma full_run_facts : forall v c h job (full : bool) b fail core evs ok,
-  f_wm v = WmOwn -> c_latest c = false -> (1 <= b)%nat ->
+  f_wm v = WmOwn -> (1 <= b)%nat ->
   (if full then @None tokens else job) = None ->
   run_events v c h job full b fail core = (evs, ok) ->
   no_append evs /\
@@ -886,7 +1012,7 @@ Lemma full_run_facts : forall v c h job (full : bool) b fail core evs ok,
                (forall dp, In dp (c_deps c) -> dtok tkf (d_ds dp) = lenz (feed_of h (d_ds dp))) /\
                (forall m, main_live h (c_main c) m = true -> In m (ents_of evs))).
 Proof.
-  intros v c h job full b fail core evs ok Hw Hl Hb Ej Er. unfold run_events in Er. rewrite Ej in Er.
+  intros v c h job full b fail core evs ok Hw Hb Ej Er. unfold run_events in Er. rewrite Ej in Er.
   destruct (full_pages c h b (fuel_of h c) 0) as [ps fin] eqn:Ef.
   apply cut_calls_prefix in Er. destruct Er as (l1 & l2 & Hsp & -> & _).
   split; [apply no_append_pairs|].
@@ -894,18 +1020,14 @@ Proof.
   - right. rewrite app_nil_r in Hsp. subst l1. rewrite map_app. cbn [map ev_of_pair fst snd].
     set (tkf := mkTok fin (wm_tokens v c h core)). exists tkf.
     destruct (wm_tokens_own v c h core Hw) as [Hwm Hwm0].
-    destruct (full_pages_complete c h b Hl Hb (fuel_of h c) 0 ps fin ltac:(lia)
+    destruct (full_pages_complete c h b Hb (fuel_of h c) 0 ps fin ltac:(lia)
                 ltac:(unfold fuel_of, lenz; lia) Ef) as [Hfin Hall].
     split; [clear; induction ps; cbn; auto|]. split; [split; [exact Hwm0|exact Hfin]|]. split.
     + intros dp Hdp. unfold dtok, tkf. cbn [t_deps]. exact (Hwm dp Hdp).
     + intros m Hm. rewrite ents_of_app, ents_of_none. apply in_or_app. left.
-      apply main_live_In in Hm. apply in_map_iff in Hm. destruct Hm as (y & <- & Hy).
-      apply In_nth_error in Hy. destruct Hy as [i Hi].
-      assert (Hnz : nthz (feed_of h (c_main c)) (Z.of_nat i) = Some y).
-      { clear - Hi. revert i Hi. induction (feed_of h (c_main c)) as [|z f IH]; intros [|i] Hi; cbn in Hi; try discriminate.
-        - injection Hi as ->. reflexivity.
-        - rewrite nthz_cons by lia. replace (Z.of_nat (S i) - 1) with (Z.of_nat i) by lia. auto. }
-      apply (Hall (Z.of_nat i) y); [lia|exact Hnz].
+      apply main_live_In in Hm. apply last_occurrence in Hm. destruct Hm as (p & y & Hy & <- & Hsup).
+      pose proof (nthz_range _ _ _ Hy) as Hr.
+      apply (Hall p y); [lia|exact Hy|]. unfold skipped. rewrite Hsup. apply andb_false_r.
   - left. apply app_last_split in Hsp; [|discriminate]. destruct Hsp as (l2' & _ & Hps).
     apply map_eq_app' in Hps. destruct Hps as (a1 & a2 & _ & -> & _). apply last_tok_none.
 Qed.
@@ -944,10 +1066,10 @@ Proof.
 Qed.
 
 Lemma step_inv : forall v c n s tr o s' evs ok,
-  sound v -> c_latest c = false -> batch_ok c o -> hinv c n s tr ->
+  sound_l v c -> batch_ok c o -> hinv c n s tr ->
   step v c s o = (s', evs, ok) -> hinv c n s' (tr ++ evs).
 Proof.
-  intros v c n s tr o s' evs ok (Hs & Hp & Hw) Hl Hb Hh H. pose proof Hh as [Hrep Hinv].
+  intros v c n s tr o s' evs ok ((Hs & Hp & Hw) & Hsk) Hb Hh H. pose proof Hh as [Hrep Hinv].
   destruct o as [k vs|full b fail core|b fail core k ds vs]; cbn [step] in H.
   - (* append *)
     injection H as <- <- <-. split; cbn [s_hub s_job].
@@ -981,7 +1103,7 @@ Proof.
         destruct (Z.lt_ge_cases p (dtok tk (d_ds dp))) as [Hlt|Hge].
         { apply covered_mono. apply Hcov; auto. lia. }
         rewrite <- app_assoc in Hcs. cbn [app] in Hcs.
-        destruct (inc_pages_safe v c (s_hub s) b Hs Hp Hl Hb _ _ Hok _ _ _ Hcs dp Hdp p ltac:(lia))
+        destruct (inc_pages_safe v c (s_hub s) b Hs Hp Hsk Hb _ _ Hok _ _ _ Hcs dp Hdp p ltac:(lia))
           as (pre & post & Epp & Hle & Hreq).
         assert (Htin : tok_in c (s_hub s) (k_tok k)) by (eapply inc_pages_tok_in; eauto).
         destruct (nthz_some (feed_of (s_hub s) (d_ds dp)) p) as [x Hx].
@@ -993,14 +1115,14 @@ Proof.
         left. exists (tok_after pre tk). split; [apply no_append_calls|]. split; auto. split; auto.
         intros m Hm. rewrite ents_of_calls. apply Hreq. exists x. auto.
     + (* full sync *)
-      destruct (full_run_facts v c (s_hub s) (s_job s) full b fail core evs' ok' Hw Hl Hb Ej Er) as [Hna Hf].
+      destruct (full_run_facts v c (s_hub s) (s_job s) full b fail core evs' ok' Hw Hb Ej Er) as [Hna Hf].
       pose proof (full_inv c n s tr evs' [] [] (s_hub s) Hh) as G. rewrite !app_nil_r in G. cbn [app] in G.
       destruct s as [hub job]. apply G; auto.
   - (* full sync with a foreign write between two sink calls *)
     destruct (run_events v c (s_hub s) (s_job s) true b fail core) as [evs0 ok0] eqn:Er.
     destruct (insert_mid evs0 k (EvAppend ds vs)) as [evs1 ins] eqn:Ei.
     injection H as <- <- <-. cbn [batch_ok] in Hb. destruct Hb as [Hb _].
-    destruct (full_run_facts v c (s_hub s) (s_job s) true b fail core evs0 ok0 Hw Hl Hb eq_refl Er) as [Hna Hf].
+    destruct (full_run_facts v c (s_hub s) (s_job s) true b fail core evs0 ok0 Hw Hb eq_refl Er) as [Hna Hf].
     destruct (insert_mid_spec _ _ _ _ _ Ei) as [[-> ->]|(-> & e1 & e2 & -> & ->)].
     + pose proof (full_inv c n s tr evs0 [] [] (s_hub s) Hh) as G. rewrite !app_nil_r in G. cbn [app] in G.
       apply G; auto.
@@ -1011,10 +1133,10 @@ Proof.
 Qed.
 
 Lemma exec_inv : forall v c n ops s tr s' tr',
-  sound v -> c_latest c = false -> Forall (batch_ok c) ops -> hinv c n s tr ->
+  sound_l v c -> Forall (batch_ok c) ops -> hinv c n s tr ->
   exec v c s ops = (s', tr') -> hinv c n s' (tr ++ tr').
 Proof.
-  intros v c n. induction ops as [|o ops IH]; intros s tr s' tr' Hv Hl Hb Hi H; cbn [exec] in H.
+  intros v c n. induction ops as [|o ops IH]; intros s tr s' tr' Hv Hb Hi H; cbn [exec] in H.
   - injection H as <- <-. now rewrite app_nil_r.
   - destruct (step v c s o) as [[s1 e1] ok1] eqn:E1. destruct (exec v c s1 ops) as [s2 e2] eqn:E2.
     injection H as <- <-. inversion Hb; subst. rewrite app_assoc. eapply IH; eauto. eapply step_inv; eauto.
@@ -1023,6 +1145,38 @@ Qed.
 Lemma hinv_init : forall c n, hinv c n (init_state n) [].
 Proof. intros. split; [reflexivity|]. cbn. discriminate. Qed.
 
+(** general form (any LatestOnly flag): [covered_l] *)
+Theorem tokens_safe_l : forall v c n ops s tr tk,
+  sound_l v c -> Forall (batch_ok c) ops ->
+  exec v c (init_state n) ops = (s, tr) -> s_job s = Some tk ->
+  forall dp, In dp (c_deps c) -> forall p, 0 <= p < dtok tk (d_ds dp) -> covered_l c n tr dp p.
+Proof.
+  intros v c n ops s tr tk Hv Hb H Hj dp Hdp p Hr.
+  pose proof (exec_inv v c n ops _ [] _ _ Hv Hb (hinv_init c n) H) as [_ Hi]. cbn [app] in Hi.
+  destruct (Hi tk Hj) as (_ & _ & Hc). auto.
+Qed.
+
+Theorem complete_l : forall v c n ops s tr,
+  sound_l v c -> Forall (batch_ok c) ops ->
+  exec v c (init_state n) ops = (s, tr) -> caught_up c s ->
+  forall dp, In dp (c_deps c) -> forall p, 0 <= p < lenz (feed_of (s_hub s) (d_ds dp)) -> covered_l c n tr dp p.
+Proof.
+  intros v c n ops s tr Hv Hb H (tk & Hj & Hup) dp Hdp p Hr.
+  eapply tokens_safe_l; eauto. rewrite (Hup dp Hdp). exact Hr.
+Qed.
+
+Lemma sound_l_plain : forall v c, sound v -> c_latest c = false -> sound_l v c.
+Proof. intros v c Hv Hl. split; auto. congruence. Qed.
+
+Lemma covered_l_plain : forall c n tr dp p, c_latest c = false -> covered_l c n tr dp p -> covered c n tr dp p.
+Proof.
+  intros c n tr dp p Hl (tr1 & tr2 & tr3 & h1 & j1 & x & E & Hrep & Hx & H).
+  exists tr1, tr2, tr3, h1, j1, x. split; auto. split; auto. split; auto.
+  destruct H as [(tk1 & Hna & Hj & Hle & Hreq)|H]; [left|right; auto].
+  exists tk1. split; auto. split; auto. split; auto. intros m [Hc Hm]. apply Hreq. split; auto.
+  destruct Hc as [Hc|Hc]; auto. left. split; auto. unfold skipped. now rewrite Hl.
+Qed.
+
 (** C18_tokens_safe: at every moment of every history (including runs cut short by a failing sink) the
     persisted dependency tokens only cover changes that have been handled. *)
 Theorem tokens_safe : forall v c n ops s tr tk,
@@ -1030,9 +1184,8 @@ Theorem tokens_safe : forall v c n ops s tr tk,
   exec v c (init_state n) ops = (s, tr) -> s_job s = Some tk ->
   forall dp, In dp (c_deps c) -> forall p, 0 <= p < dtok tk (d_ds dp) -> covered c n tr dp p.
 Proof.
-  intros v c n ops s tr tk Hv Hl Hb H Hj dp Hdp p Hr.
-  pose proof (exec_inv v c n ops _ [] _ _ Hv Hl Hb (hinv_init c n) H) as [_ Hi]. cbn [app] in Hi.
-  destruct (Hi tk Hj) as (_ & _ & Hc). auto.
+  intros v c n ops s tr tk Hv Hl Hb H Hj dp Hdp p Hr. apply covered_l_plain; auto.
+  eapply tokens_safe_l; eauto. now apply sound_l_plain.
 Qed.
 
 (** C18_complete: once the job has caught up, every change of every dependency dataset has been handled. *)
@@ -1041,17 +1194,15 @@ Theorem complete : forall v c n ops s tr,
   exec v c (init_state n) ops = (s, tr) -> caught_up c s ->
   forall dp, In dp (c_deps c) -> forall p, 0 <= p < lenz (feed_of (s_hub s) (d_ds dp)) -> covered c n tr dp p.
 Proof.
-  intros v c n ops s tr Hv Hl Hb H (tk & Hj & Hup) dp Hdp p Hr.
-  eapply tokens_safe; eauto. rewrite (Hup dp Hdp). exact Hr.
+  intros v c n ops s tr Hv Hl Hb H Hup dp Hdp p Hr. apply covered_l_plain; auto.
+  eapply complete_l; eauto. now apply sound_l_plain.
 Qed.
 
-
-(** * "the tokens no longer advance" means caught up *)
 Section Fix.
   Variables (v : variant) (c : cfg) (h : hub) (b : nat).
   Hypothesis Hs : f_shared v = SharedSnapshot.
   Hypothesis Hp : f_prev v = PrevFeed.
-  Hypothesis Hl : c_latest c = false.
+  Hypothesis Hsk : c_latest c = true -> f_skip v = SkipPrev.
   Hypothesis Hb : (1 <= b)%nat.
 
   Lemma inc_pages_mono : forall fuel tk ds, tok_ok tk ->
@@ -1060,10 +1211,10 @@ Section Fix.
     induction fuel as [|fuel IH]; intros tk ds Hok; cbn [inc_pages]; [cbn; lia|].
     destruct (read_page v c h tk b) as [[cs tk'] more] eqn:Ep.
     destruct Hok as [H1 H2].
-    destruct (page_safe v c h tk b Hs Hp Hl Hb H1 H2 _ _ _ Ep) as (_ & Hd & _ & _ & (cs0 & kl & Hcs & Hkl & _)).
+    destruct (page_safe v c h tk b Hs Hp Hsk Hb H1 H2 _ _ _ Ep) as (_ & Hd & _ & _ & (cs0 & kl & Hcs & Hkl & _)).
     assert (Ht : tok_after cs tk = tk') by (rewrite Hcs, tok_after_app; cbn; exact Hkl).
     assert (Hge : dtok tk ds <= dtok tk' ds).
-    { destruct (Hd ds) as [->| ->]; [lia|]. pose proof (cont_of_bounds c h tk b Hl Hb H1 ds). lia. }
+    { destruct (Hd ds) as [->| ->]; [lia|]. pose proof (cont_of_bounds c h tk b Hb H1 ds). lia. }
     destruct more.
     - rewrite tok_after_app, Ht. assert (Hok' : tok_ok tk') by (eapply page_tok_ok; eauto; split; auto).
       specialize (IH tk' ds Hok'). lia.
@@ -1077,32 +1228,39 @@ Section Fix.
     intros tk dp Hok Hdp Heq. unfold fuel_of in Heq. cbn [inc_pages] in Heq.
     destruct (read_page v c h tk b) as [[cs tk'] more] eqn:Ep.
     pose proof Hok as [H1 H2].
-    destruct (page_safe v c h tk b Hs Hp Hl Hb H1 H2 _ _ _ Ep) as (_ & _ & Hfin & _ & (cs0 & kl & Hcs & Hkl & _)).
+    destruct (page_safe v c h tk b Hs Hp Hsk Hb H1 H2 _ _ _ Ep) as (_ & _ & Hfin & _ & (cs0 & kl & Hcs & Hkl & _)).
     assert (Ht : tok_after cs tk = tk') by (rewrite Hcs, tok_after_app; cbn; exact Hkl).
     assert (Hge : dtok tk' (d_ds dp) <= dtok tk (d_ds dp)).
     { destruct more.
       - rewrite tok_after_app, Ht in Heq. rewrite <- Heq. apply inc_pages_mono. eapply page_tok_ok; eauto.
       - rewrite Ht in Heq. lia. }
-    rewrite (Hfin dp Hdp) in Hge. pose proof (cont_of_bounds c h tk b Hl Hb H1 (d_ds dp)). lia.
+    rewrite (Hfin dp Hdp) in Hge. pose proof (cont_of_bounds c h tk b Hb H1 (d_ds dp)). lia.
   Qed.
 End Fix.
 
 (** a fault-free incremental run that leaves a dependency token where it was had nothing left to read *)
-Theorem fixpoint_caught_up : forall v c h b core tk evs ok tk' dp,
-  sound v -> c_latest c = false -> (1 <= b)%nat -> tok_ok tk -> tok_in c h tk -> In dp (c_deps c) ->
+Theorem fixpoint_caught_up_l : forall v c h b core tk evs ok tk' dp,
+  sound_l v c -> (1 <= b)%nat -> tok_ok tk -> tok_in c h tk -> In dp (c_deps c) ->
   run_events v c h (Some tk) false b None core = (evs, ok) -> last_tok evs (Some tk) = Some tk' ->
   dtok tk' (d_ds dp) = dtok tk (d_ds dp) ->
   dtok tk (d_ds dp) = lenz (feed_of h (d_ds dp)).
 Proof.
-  intros v c h b core tk evs ok tk' dp (Hs & Hp & _) Hl Hb Hok Hin Hdp Hr Hlast Heq.
+  intros v c h b core tk evs ok tk' dp ((Hs & Hp & _) & Hsk) Hb Hok Hin Hdp Hr Hlast Heq.
   unfold run_events in Hr. cbn in Hr.
   assert (Hall : forall l n, cut_calls l None n = (map ev_of_pair l, true)).
   { induction l as [|[es t] l IH]; intros n; cbn [cut_calls map]; auto. destruct es; rewrite IH; reflexivity. }
   rewrite Hall in Hr. injection Hr as <- <-. rewrite map_map in Hlast.
   change (map (fun x : call => ev_of_pair (k_ents x, Some (k_tok x)))) with (map ev_of_call) in Hlast.
   rewrite last_tok_calls in Hlast. injection Hlast as <-.
-  pose proof (run_fixpoint v c h b Hs Hp Hl Hb tk dp Hok Hdp Heq). specialize (Hin dp Hdp). lia.
+  pose proof (run_fixpoint v c h b Hs Hp Hsk Hb tk dp Hok Hdp Heq). specialize (Hin dp Hdp). lia.
 Qed.
+
+Theorem fixpoint_caught_up : forall v c h b core tk evs ok tk' dp,
+  sound v -> c_latest c = false -> (1 <= b)%nat -> tok_ok tk -> tok_in c h tk -> In dp (c_deps c) ->
+  run_events v c h (Some tk) false b None core = (evs, ok) -> last_tok evs (Some tk) = Some tk' ->
+  dtok tk' (d_ds dp) = dtok tk (d_ds dp) ->
+  dtok tk (d_ds dp) = lenz (feed_of h (d_ds dp)).
+Proof. intros v c h b core tk evs ok tk' dp Hv Hl. apply fixpoint_caught_up_l. now apply sound_l_plain. Qed.
 
 (** * main_only, for every variant *)
 Lemma dep_step_main : forall v c h tk0 b d dp later cs d',
